@@ -120,6 +120,8 @@ pub const ALPHABET: &[u32] = &[
     'K' as u32, '0' as u32, '_' as u32, '-' as u32, '\n' as u32, ' ' as u32, 0xE9, 0xC9, 0x17F, 0x212A,
     0xDF, 0x1E9E, 0x1C5, 0x1C4, 0x1C6, 0x1F80, 0x1F88, 0x20AC, 0x2028, 0x1F600, 0x10400, 0x10428,
     0x3C3, 0x3C2, 0x3A3, 0x130, 0x131, 'i' as u32, 'I' as u32,
+    // range ends of the code point space and of the encodings
+    0x0, 0x7F, 0x80, 0x7FF, 0x800, 0xFFFF, 0x10000, 0x10FFFF, 0x8, 0x9, 0x1B,
 ];
 /// A smaller alphabet used for most literals so that matches are frequent.
 pub const CORE: &[u32] = &['a' as u32, 'b' as u32, 'A' as u32, 's' as u32, 'k' as u32, 0xE9, 0x17F, 0x212A, 0x10428];
@@ -597,10 +599,34 @@ fn ends_with_backref(out: &str) -> bool {
     t.len() < out.len() && t.ends_with('\\')
 }
 
+/// Alternative spellings of a character (same AST): the choice is a deterministic function of the
+/// position and the character, so that a pattern prints the same way every time.
+fn alt_spelling(out: &str, c: u32, f: Flags) -> Option<String> {
+    let h = (c.wrapping_mul(2654435761).wrapping_add((out.len() as u32).wrapping_mul(40503)) >> 7) % 16;
+    match h {
+        0 if c < 0x100 => Some(format!("\\x{:02X}", c)),
+        1 if c < 0x10000 => Some(format!("\\u{:04X}", c)),
+        2 if f.unicode() && c <= 0x10FFFF => Some(format!("\\u{{{:04x}}}", c)),
+        3 if f.unicode() && c >= 0x10000 && c <= 0x10FFFF => {
+            let v = c - 0x10000;
+            Some(format!("\\u{:04X}\\u{:04X}", 0xD800 + (v >> 10), 0xDC00 + (v & 0x3FF)))
+        }
+        4 | 5 if (1..=26).contains(&c) => Some(format!("\\c{}", (b'A' + (c as u8) - 1) as char)),
+        6 | 7 | 8 if (9..=13).contains(&c) => Some(format!("\\{}", ['t', 'n', 'v', 'f', 'r'][(c - 9) as usize])),
+        _ => None,
+    }
+}
+
 pub fn print_char(out: &mut String, c: u32, f: Flags) {
     if c >= '0' as u32 && c <= '9' as u32 && ends_with_backref(out) {
         out.push_str(&format!("\\x{:02x}", c));
+    } else if let Some(sp) = alt_spelling(out, c, f) {
+        out.push_str(&sp);
     } else if is_plain(c) {
+        out.push(char::from_u32(c).unwrap());
+    } else if "^$\\.*+?()[]{}|/".contains(char::from_u32(c).unwrap_or('a')) && (c.wrapping_add(out.len() as u32)) % 2 == 0 {
+        // IdentityEscape of a syntax character: valid in every mode, inside and outside classes
+        out.push('\\');
         out.push(char::from_u32(c).unwrap());
     } else if c < 0x80 {
         out.push_str(&format!("\\x{:02x}", c));
@@ -626,6 +652,7 @@ fn prop_text(neg: bool, kind: u8, name: &str) -> String {
 
 fn print_item(out: &mut String, it: &ClassItem, f: Flags) {
     match it {
+        ClassItem::C(8) if out.len() % 2 == 0 => out.push_str("\\b"),
         ClassItem::C(c) => print_char(out, *c, f),
         ClassItem::R(a, b) => {
             print_char(out, *a, f);
